@@ -328,6 +328,7 @@ type rsObs struct {
 	Rterr    string `json:"rterr"`
 	Rt       []int  `json:"rt"`
 	Rtlen    int    `json:"rtlen"`
+	Rtincl   bool   `json:"rtincl"`
 	Inclself bool   `json:"inclself"`
 	Inclplus bool   `json:"inclplus"`
 	Inclsub  []int  `json:"inclsub"`
@@ -364,6 +365,16 @@ func runeSetHistory(enc *json.Encoder, t int, ops []struct {
 				}
 			}
 			o.Rtlen = back.Len()
+			// the set read back is the same set: mutual inclusion with the original and with itself (the
+			// page structure of a deserialized set must be as usable as the original's)
+			o.Rtincl = fontscan.VerifRuneSetIncludes(back, rs) && fontscan.VerifRuneSetIncludes(rs, back) && fontscan.VerifRuneSetIncludes(back, back)
+			for _, p := range rsProbes {
+				var single fontscan.RuneSet
+				single.Add(p)
+				if fontscan.VerifRuneSetIncludes(back, single) != back.Contains(p) {
+					o.Rtincl = false
+				}
+			}
 		}
 		o.Inclself = fontscan.VerifRuneSetIncludes(rs, rs)
 		// a strict superset: add a rune that is certainly absent
